@@ -122,6 +122,7 @@ class _Gen:
         # OKL inserts the barriers between sibling @inner loops itself when @shared data is involved
         # (okl/add_barriers); some kernels spell them out, some rely on that
         explicit = r.random() < 0.6 or mid
+        first_dir = "up"
         if mid:
             self.features.add("mid-loop")
             out += ind + "  for (int rep = 0; rep < 2; ++rep) {\n"
@@ -139,7 +140,14 @@ class _Gen:
                 out += ind + "    for (int ib = 0; ib < 2; ++ib; @inner%s) {\n" % ix[1]
                 iexpr, pad = "(ia * 2 + ib)", ind + "      "
             else:
-                loop = self.r.choice(["up", "up", "down"])
+                # without explicit barriers OKL only orders what goes through @shared memory: out0[g] may then be written
+                # in several phases only if the same work item writes it each time, i.e. all phases map positions to g alike
+                if explicit or ph == 0:
+                    loop = self.r.choice(["up", "up", "down"])
+                    first_dir = loop if ph == 0 else first_dir
+                else:
+                    self.r.choice(["up", "up", "down"])      # (keeps the random stream aligned)
+                    loop = first_dir
                 if loop == "up":
                     out += ind + "  for (int i = 0; i < %d; ++i; @inner) {\n" % I
                 else:
@@ -223,9 +231,13 @@ class _Gen:
             elif x < 0.67:
                 self.features.add("atomic-float")
                 out += pad + "@atomic fout[in1[%s] %% 2] += %s;\n" % (g, r.choice(["1.0f", "2.0f", "(float) in0[%s]" % g]))
-            elif x < 0.82:
+            elif x < 0.76:
                 self.features.add("atomic-block")
                 out += pad + "@atomic {\n%s  out1[6] = out1[6] + in0[%s];\n%s  out1[7] = out1[7] + 1;\n%s}\n" % (pad, g, pad, pad)
+            elif x < 0.82:
+                # a general (non += / ++) update in a single statement, on the locations the block form updates too
+                self.features.add("atomic-assign")
+                out += pad + "@atomic out1[%d] = out1[%d] + %s;\n" % ((6, 6, "in0[%s]" % g) if r.random() < 0.5 else (7, 7, "2"))
             elif use_excl_ptr:
                 self.features.add("atomic-through-exclusive-pointer")
                 out += pad + "@atomic *p += 1;\n"
